@@ -757,3 +757,87 @@ Example sigs_example :
              (LRecv (FPayload 1 false false true false [] []) ONone, true); (LClose, true)] in
   dsigs 0 (concat (snd (ep_run (ep_init 1) ls))) = [SNext [] [x02] false; SComplete].
 Proof. vm_compute. reflexivity. Qed.
+
+Example sigs_example2 :
+  let ls := [(LReqChannel [] [x01] true, true); (LSubscribe 0 true [] [x01], true);
+             (LRecv (FPayload 1 false false false true [] [x02]) ONone, true);
+             (LRecv (FPayload 1 false false true false [] []) ONone, true); (LClose, true)] in
+  no_late (ep_init 1) ls 0 /\ dsigs 0 (concat (snd (ep_run (ep_init 1) ls))) = [SNext [] [x02] false; SComplete].
+Proof. vm_compute. repeat split. Qed.
+
+(* ---------- C09: cancellation ---------- *)
+(* a frame for a stream that is gone is dropped without a trace (elements in flight after a cancel) *)
+Theorem gone_payload_dropped e sid ign co nx md d o u : gone e sid -> sid <> CONNECTION_STREAM_ID ->
+  recv_frame e (FPayload sid ign false co nx md d) o u = (e, []).
+Proof.
+  intros [Ht Hc] Hs. unfold recv_frame. change (is_fragmentable (FPayload sid ign false co nx md d)) with true. cbv iota.
+  unfold cache_append. cbn [ffollows fsid]. rewrite Hc.
+  assert ({| sc := sc e; table := table e; objs := objs e; cachek := cachek e |} = e) as -> by (destruct e; reflexivity).
+  unfold recv_dispatch. cbn [fsid]. change (is_request_type (FPayload sid ign false co nx md d)) with false.
+  rewrite orb_false_r. destruct (N.eqb_spec sid CONNECTION_STREAM_ID); [congruence|]. rewrite Ht. reflexivity.
+Qed.
+
+(* cancelling a stream subscription: exactly one CANCEL, the stream is gone, and in every continuation the canceller's
+   subscriber hears nothing more *)
+Theorem rs_cancel_silences u e oid o : Inv e -> nth_error (objs e) oid = Some o -> o_kind o = KRSReq ->
+  ep_step u e (LCancel oid) = (finish e (o_sid o), [XEnq (f_cancel (o_sid o))]) /\
+  forall ls, no_late (finish e (o_sid o)) ls oid -> dsigs oid (concat (snd (ep_run (finish e (o_sid o)) ls))) = [].
+Proof.
+  intros I Ho Hk. split; [apply cancel_rs_requester; assumption|].
+  intros ls Hn. apply run_closed_silent; [apply inv_finish; exact I|exact Hn|apply opn_finish_own; assumption].
+Qed.
+
+(* cancelling a request-response: the awaitable is never resolved by the library afterwards; the callback sends
+   exactly one CANCEL unless the response got there first *)
+Theorem rr_cancel_silences u e oid o : Inv e -> nth_error (objs e) oid = Some o -> o_kind o = KRRReq -> o_fut o = FPending ->
+  let e1 := fst (ep_step u e (LFutCancel oid)) in
+  (forall ls, futs oid (concat (snd (ep_run e1 ls))) = 0%nat) /\
+  (forall r, snd (ep_step u e1 (LFutCb oid r)) = if o_responded o then [] else [XEnq (f_cancel (o_sid o))]).
+Proof.
+  intros I Ho Hk Hf. cbn [ep_step]. unfold with_obj. rewrite Ho, Hf. cbn [fst].
+  assert (oid < length (objs e))%nat as Hl by (apply nth_error_Some; congruence).
+  assert (nth_error (objs (set_obj e oid (upd_fut o FCancelled))) oid = Some (upd_fut o FCancelled)) as Hn
+    by (cbn; apply nth_oset_same; exact Hl).
+  split.
+  - intro ls. apply (no_resolution_unless_pending ls _ oid (upd_fut o FCancelled)); [|exact Hn|discriminate].
+    eapply inv_set_obj; [exact I|exact Ho|reflexivity].
+  - intro r. rewrite Hn. cbn [upd_fut o_kind o_fut o_responded o_sid]. rewrite Hk. destruct (o_responded o); reflexivity.
+Qed.
+
+(* the peer's CANCEL reaches the producer: the handler's future / the publisher is cancelled in the same atomic section *)
+Theorem cancel_reaches_producer e oid o u : o_has_pub o = true \/ is_chan (o_kind o) = false ->
+  snd (fst (handler_frame e oid o (FCancel (o_sid o) false) u)) =
+  match o_kind o with
+  | KRRResp => match o_fut o with FPending => [XAppFutCancel oid] | _ => [] end
+  | KRSResp | KChanReq | KChanResp => [XPub oid PCancelOp]
+  | _ => []
+  end.
+Proof.
+  intro H. unfold handler_frame. destruct (o_kind o) eqn:Ek; cbn [is_chan] in H; try reflexivity.
+  - destruct (o_fut o); reflexivity.
+  - destruct H as [H|H]; [rewrite H; reflexivity|discriminate].
+  - destruct H as [H|H]; [rewrite H; reflexivity|discriminate].
+Qed.
+
+(* a local cancel touches only its own stream *)
+Theorem local_cancel_isolated u e oid o k : nth_error (objs e) oid = Some o -> k <> o_sid o ->
+  let e' := fst (ep_step u e (LCancel oid)) in
+  tget (table e') k = tget (table e) k /\ cache_get (cachek e') k = cache_get (cachek e) k /\
+  (forall j, j <> oid -> nth_error (objs e') j = nth_error (objs e) j).
+Proof.
+  intros Ho Hk. cbn [ep_step]. unfold with_obj. rewrite Ho.
+  assert (o_sid o =? k = false) as Hne by (apply N.eqb_neq; congruence).
+  destruct (o_kind o); cbn [fst]; try (repeat split; reflexivity).
+  - rewrite finish_table_get, finish_cache_get, Hne. repeat split; reflexivity.
+  - destruct (chan_mark_table e oid o false true k Hk) as [A B]. repeat split; try assumption.
+    intros j Hj. apply chan_mark_objs. exact Hj.
+  - destruct (chan_mark_table e oid o false true k Hk) as [A B]. repeat split; try assumption.
+    intros j Hj. apply chan_mark_objs. exact Hj.
+Qed.
+
+(* REFUTED for a channel whose own sending direction is still open (finding KF-C09-channel-cancel-inflight, part of
+   F16): cancel() marks only the receiving direction, the entry stays, and an element in flight is still delivered *)
+Lemma channel_cancel_inflight_delivered :
+  snd (recv_frame (fst (ep_step true f16_ep (LCancel 0))) (FPayload 1 false false false true [] [x07]) ONone true)
+  = [XCb 0 (SNext [] [x07] false)].
+Proof. vm_compute. reflexivity. Qed.
